@@ -92,6 +92,10 @@ pub trait Ser: Any {
     fn size_bytes(&self) -> usize;
     /// Loads a value of the same type from the reader.
     fn load_same(&self, r: &mut dyn io::Read) -> io::Result<Box<dyn Ser>>;
+    /// `serialize::serialize_to`.
+    fn save_to(&self, path: &std::path::Path) -> io::Result<()>;
+    /// `serialize::load_from` of the same type.
+    fn load_file(&self, path: &std::path::Path) -> io::Result<Box<dyn Ser>>;
     fn eq_dyn(&self, other: &dyn Ser) -> bool;
     fn debug(&self) -> String;
     fn as_any(&self) -> &dyn Any;
@@ -117,6 +121,13 @@ impl<T: Serialize + PartialEq + Debug + 'static> Ser for T {
     }
     fn load_same(&self, mut r: &mut dyn io::Read) -> io::Result<Box<dyn Ser>> {
         let v = T::load(&mut r)?;
+        Ok(Box::new(v))
+    }
+    fn save_to(&self, path: &std::path::Path) -> io::Result<()> {
+        simple_sds::serialize::serialize_to(self, path)
+    }
+    fn load_file(&self, path: &std::path::Path) -> io::Result<Box<dyn Ser>> {
+        let v: T = simple_sds::serialize::load_from(path)?;
         Ok(Box::new(v))
     }
     fn eq_dyn(&self, other: &dyn Ser) -> bool {
